@@ -38,6 +38,7 @@ META = {
         "C02.reject.type",
     ],
     "ambient": {"quick": [], "thorough": []},
+    "owns": ["inv.field.array"],   # ambient invariant array.shape == (*n, nvdim)
     "anchor_files": ["discretisedfield/field.py", "discretisedfield/mesh.py",
                      "discretisedfield/line.py"],
     "assumptions": [
